@@ -28,6 +28,10 @@ def plan(ctx):
             obs.append(Obligation(f"fn.{name}.{sh or 'noargs'}", "xh", "c02", "closure_step", param={"fn": name, "shape": sh}, timeout=T,
                                   bounds="plain arguments: lists 0..3 of symbolic ints, nested lists, dicts, tuples, attribute-like and format-like strings, builtins and lambdas in callable positions",
                                   desc=f"FUNCTIONS[{name!r}] shape {sh!r}: result (deep type walk) is plain data / a builtin / a lambda, or an Exception; arguments stay plain"))
+    for name in sorted(FUNCTIONS):
+        obs.append(Obligation(f"on_builtins.{name}", "xh", "c02", "builtin_on_builtin", param={"fn": name}, timeout=T * 2,
+                              bounds="first argument: every value of the function table (index symbolic); shapes f(g), f(g, 1), f(g, 'a'), f(g, g), f([g], 0)",
+                              desc=f"FUNCTIONS[{name!r}] applied to the builtins themselves yields plain data / a builtin / a lambda, or raises"))
     for p in nodes.kind_params():
         if p["op"] not in (None, '+', 'and', '-', '+=', 'not'):
             continue
